@@ -7,15 +7,23 @@ prints the implementation's.
 import A10Verif.Model.Basic
 import A10Verif.Model.Addr
 import A10Verif.Model.Life
+import A10Verif.Model.ReadBuf
+import A10Verif.Model.Config
+import A10Verif.Model.Inotify
 
 open A10
 
 structure DriverState where
   life : Life.Sys := {}
+  readbuf : ReadBuf.St := ReadBuf.init
+  inotify : Inotify.St := Inotify.init
 
 def dispatch (st : DriverState) (toks : List String) : DriverState × List String :=
   match toks with
   | "addr" :: _ => (st, Addr.stepLine toks)
+  | "readbuf" :: _ => let (s, o) := ReadBuf.stepLine st.readbuf toks; ({ st with readbuf := s }, o)
+  | "config" :: _ => (st, Config.stepLine toks)
+  | "inotify" :: _ => let (s, o) := Inotify.stepLine st.inotify toks; ({ st with inotify := s }, o)
   | "life" :: _ => let (s, o) := Life.stepLine st.life toks; ({ st with life := s }, o)
   | _ => (st, ["bad-op"])
 
